@@ -346,6 +346,7 @@ func trimStack(st string) string {
 //   - otherwise: corpus cases first (VERIF_CORPUS dir, files <property>-*.json or in <property>/), then rapid.
 func ReplayOrRapid[C any](t *testing.T, r *Run, check func(C) (bool, *Violation), gen func(*rapid.T) C) {
 	defer r.Finish()
+	curRun = r
 	if path := os.Getenv("VERIF_REPLAY"); path != "" {
 		c, err := loadCase[C](path)
 		if err != nil {
@@ -389,4 +390,20 @@ func loadCase[C any](path string) (C, error) {
 	}
 	err = json.Unmarshal(data, &c)
 	return c, err
+}
+
+// curRun is the Run of the Test function executing in this process (the driver starts one
+// Test function per process); classify() lets check functions feed the class histogram.
+var curRun *Run
+
+func classify(label string) {
+	if curRun != nil {
+		curRun.Class(label)
+	}
+}
+
+func classifyIf(cond bool, label string) {
+	if cond {
+		classify(label)
+	}
 }
